@@ -129,6 +129,10 @@ def make_open(plan: FaultPlan, watched):
     return sim_open
 
 
+class StepCap(BaseException):
+    """The run was cut off by the harness: inconclusive, never a verdict."""
+
+
 class CoopScheduler:
     """Steps generator-based clients in an order drawn from the choice source."""
 
@@ -153,7 +157,7 @@ class CoopScheduler:
         if self.trace is not None:
             self.trace.append(f"{self.step} note {text}")
 
-    def run(self, max_steps=10000):
+    def run(self, max_steps=200000):
         while self.clients:
             self.max_live = max(self.max_live, len(self.clients))
             # canonical order: the client that ran last first, then the others in creation order
@@ -175,7 +179,7 @@ class CoopScheduler:
             self.last = c
             self.step += 1
             if self.step > max_steps:
-                raise RuntimeError("step cap")
+                raise StepCap()
             try:
                 label = next(c[1])
             except StopIteration:
